@@ -114,12 +114,26 @@ def mutations(ref: Ref, rng):
             m.bond_stereo[b] = (d[0], (at[0], at[1], at[2], at[3], at[5], at[4]), d[2])
             out.append(("E/Z or atrop swap", m))
             break
+    for b, d in ref.bond_stereo.items():
+        if d[2] in (1, -1):
+            m = ref.copy()
+            m.bond_stereo[b] = (d[0], d[1], -d[2])
+            out.append(("one axis parity inverted", m))
+            break
     for a, v in ref.atom_changes.items():
         for c, d in v.items():
             if d[2] in (1, -1):
                 m = ref.copy()
                 m.atom_changes[a][c] = (d[0], d[1], -d[2])
                 out.append(("one stereo-change parity inverted", m))
+                break
+        break
+    for b, v in ref.bond_changes.items():
+        for c, d in v.items():
+            if d[2] in (1, -1):
+                m = ref.copy()
+                m.bond_changes[b][c] = (d[0], d[1], -d[2])
+                out.append(("one bond-stereo-change parity inverted", m))
                 break
         break
     return out
@@ -157,7 +171,9 @@ def run_c02(rep, tier, seed):
     # (2) single-feature mutations on the structured corpus
     for kind in KINDS:
         grp = {}
-        for name, ref in corpus(kind, seed):
+        from .scope import ligand_pattern_family
+
+        for name, ref in corpus(kind, seed) + (ligand_pattern_family(kind, True) if kind in ("SMG", "SCRG") else []):
             if not ref.atoms or not ref.fully_specified():
                 continue
             a = build_real(ref)
